@@ -118,6 +118,55 @@ func boundaryC15(emit func(*c15Case)) {
 	}
 }
 
+// exhaustiveC15 enumerates every struct type with exactly two fields over three field kinds and six
+// tag forms, with every combination of zero / non-zero field values, under the eight key-naming
+// option combinations (shard `w` of `n`).
+func exhaustiveC15(w, n int, emit func(*c15Case)) {
+	kinds := []reflect.Type{intTypes[0], stringType, reflect.PtrTo(intTypes[0])}
+	tags := []string{"", `json:"k%d"`, `json:"k%d,omitempty"`, `json:",omitempty"`, `json:"-"`, `json:",string"`}
+	names := []string{"Abc", "XValue"}
+	idx := 0
+	for k0 := range kinds {
+		for t0 := range tags {
+			for k1 := range kinds {
+				for t1 := range tags {
+					idx++
+					if idx%n != w {
+						continue
+					}
+					fs := []reflect.StructField{
+						{Name: names[0], Type: kinds[k0], Tag: reflect.StructTag(fmt.Sprintf(strings.ReplaceAll(tags[t0], "%d", "%[1]d"), 0))},
+						{Name: names[1], Type: kinds[k1], Tag: reflect.StructTag(fmt.Sprintf(strings.ReplaceAll(tags[t1], "%d", "%[1]d"), 1))},
+					}
+					rt := reflect.StructOf(fs)
+					d := mustDescribe(rt)
+					for vals := 0; vals < 4; vals++ {
+						v := reflect.New(rt).Elem()
+						for i := 0; i < 2; i++ {
+							if vals>>i&1 == 0 {
+								continue
+							}
+							switch f := v.Field(i); f.Kind() {
+							case reflect.Int:
+								f.SetInt(7)
+							case reflect.String:
+								f.SetString("s")
+							default:
+								x := 0
+								f.Set(reflect.ValueOf(&x))
+							}
+						}
+						for o := 0; o < 8; o++ {
+							emit(&c15Case{d: d, v: v, byPtr: o&1 == 1,
+								spec: optSpec{UseTags: o&1 != 0, KeyExact: o&2 != 0, NestEmbed: o&4 != 0}})
+						}
+					}
+				}
+			}
+		}
+	}
+}
+
 func (c *c15Case) tokens() (string, string) {
 	ty, val := c.d.String(), valueString(c.d, c.v)
 	if c.byPtr {
@@ -412,9 +461,9 @@ func runC15() error {
 		return replayC15()
 	}
 	full := *tier == "thorough"
-	perWorker := 110
+	perWorker := 400
 	if full {
-		perWorker = 1500
+		perWorker = 5000
 	}
 	if s := os.Getenv("VERIF_REFLECT_N"); s != "" {
 		fmt.Sscanf(s, "%d", &perWorker)
@@ -450,6 +499,7 @@ func runC15() error {
 				}
 				boundaryC15(func(c *c15Case) { emit(c); rep.Count("stream.boundary", 1) })
 			}
+			exhaustiveC15(w, *workers, func(c *c15Case) { emit(c); rep.Count("stream.exhaustive", 1) })
 			genC15(r, perWorker, func(c *c15Case) { emit(c); rep.Count("stream.random", 1) })
 			// the option pair the encoders disagree about
 			genC15(r.Fork(77), perWorker/8+1, func(c *c15Case) {
@@ -491,6 +541,7 @@ func runC15() error {
 	rep.Rule = "every encoder (oj.JSON tight and indented, oj.Marshal, oj.Write, sen.String tight and indented, pretty.JSON, alt.Decompose+oj.JSON) " +
 		"describes the tree of the reflective reference; the Lean refEncode equals the harness reference; each Lean plan interpreter equals its implementation " +
 		"(under the smallest set of listed deviations); with ojg.GoOptions the reference equals encoding/json (nil ~ empty)"
+	rep.Exhaustive = append(rep.Exhaustive, "every struct type with two fields over {int, string, *int} x 6 tag forms (none, name, name+omitempty, omitempty, -, string), every zero/non-zero value pattern, 8 key-naming option combinations")
 	rep.Notes = append(rep.Notes, "types: reflect.StructOf structs (tags, embedded structs and pointers, nested containers, interfaces) and the named types of harness packages pa/pb; values with nil pointers, slices, maps and interfaces at every level")
 	return nil
 }
